@@ -285,9 +285,16 @@ func DecodeAlstSampleGroupEntry(name string, length uint32, sr bits.SliceReader)
 		entry.SampleOffset[i] = sr.ReadUint32()
 	}
 
-	remaining := int(length-uint32(entry.Size())) / 4
+	entrySize := uint32(entry.Size())
+	if length < entrySize {
+		return nil, fmt.Errorf("alst: length %d is less than the %d bytes of the roll_count entries", length, entrySize)
+	}
+	remaining := int(length-entrySize) / 4
 	if remaining <= 0 {
 		return entry, sr.AccError()
+	}
+	if remaining*4 > sr.NrRemainingBytes() {
+		return nil, fmt.Errorf("alst: length %d exceeds the available data", length)
 	}
 
 	// Optional
